@@ -13,8 +13,8 @@ package yqlib
 //@   let k = idxOfText(sprintv(childPath))
 //@   let n0 = len(old(node.Content))
 //@   requires node != nil
-//@   requires @elems-nonnil forall(i, 0, len(node.Content), node.Content[i] != nil && node.Content[i].Key != nil)
-//@   requires @keys-distinct forall(i, 0, len(node.Content), forall(j, 0, len(node.Content), implies(i != j, node.Content[i].Key != node.Content[j].Key)))
+//@   assume @elems-nonnil forall(i, 0, len(node.Content), node.Content[i] != nil && node.Content[i].Key != nil)
+//@   assume @keys-distinct forall(i, 0, len(node.Content), forall(j, 0, len(node.Content), implies(i != j, node.Content[i].Key != node.Content[j].Key)))
 //@   modifies node.Content, node.Content[*].Key.Value
 //@   ensures @length len(node.Content) == n0 - b2i(0 <= k && k < n0)
 //@   ensures @removes-exactly-k forall(j, 0, len(node.Content), node.Content[j] == old(node.Content[j + b2i(0 <= k && k <= j)]))
@@ -1438,3 +1438,13 @@ package yqlib
 //@   ensures @one-entry-per-pair {C16} result != nil && fresh(result) && result.Kind == SequenceNode && 2 * len(result.Content) == len(candidateNode.Content)
 //@   loop 1:
 //@     invariant 0 <= index && index <= len(contents) && index % 2 == 0 && sequence != nil && fresh(sequence) && 2 * len(sequence.Content) == index && sequence.Kind == SequenceNode && contents == candidateNode.Content && candidateNode.Content == old(candidateNode.Content) && forall(i, 0, len(contents), contents[i] != nil) && len(contents) % 2 == 0
+
+// operator_delete.go: del() removes the selected nodes themselves (C03)
+//@ func deleteChildOperator
+//@   props C03
+//@   nosafety
+//@   noframe
+//@   modifies lastEvalOut, prevEvalOut
+//@   requires d != nil && validCtx(context) && expressionNode != nil
+//@   at GetMatchingNodes: assert @selection-is-evaluated-read-only {C03,C08} arg1.DontAutoCreate && arg1.MatchingNodes == context.MatchingNodes && arg2 == expressionNode.RHS
+//@   at deleteFromArray: assert @deletes-the-selected-element {C03} arg0 == candidate.Parent && 0 <= idxOfText(sprintv(childPath)) && idxOfText(sprintv(childPath)) < len(parentNode.Content) && parentNode.Content[idxOfText(sprintv(childPath))] == candidate
